@@ -11,7 +11,7 @@ TRUSTED = [
     "harness/refec.py (independent point arithmetic), harness/dertree.py (independent DER tree parser used to build "
     "structurally consistent malformed encodings), OpenSSL CLI (ec, pkey) as second implementation",
 ]
-ASSUMPTIONS = ["PEM armour (base64 of the stdlib) is not modelled; PEM cases are direct evaluation only"]
+ASSUMPTIONS = ["base64 of the stdlib (binascii) is modelled in Model/Pem.lean and tied by correspondence, incl. malformed text; key-level PEM = armour of the DER form is direct evaluation"]
 LEANCHECKER_MODULES = ["Bec2Verif.Props.C19"]
 
 NAMED = ["NIST192p", "NIST224p", "NIST256p", "NIST384p", "NIST521p", "SECP256k1", "BRAINPOOLP160r1", "BRAINPOOLP192r1",
@@ -247,6 +247,59 @@ def curve_der_lines(ctx, rng, quick):
     ctx.correspond(dec, "curve-der-decode")
 
 
+def pem_lines(ctx, rng, quick):
+    """PEM armour and the base64 codec under it: model (`Model/Pem.lean`, theorem `pem_armour_roundtrip`) and code"""
+    import base64
+    h0 = lambda b: hx(b) or "-"
+    names = [b"PUBLIC KEY", b"EC PRIVATE KEY", b"PRIVATE KEY", b"EC PARAMETERS", b"", b"X", b"-----", "SCHL\u00dcSSEL".encode()]
+    ders = [b"", b"\x00", b"\xff", b"\x00\x00", b"\xfb\xff", b"\xff\xff\xff", bytes(range(256))]
+    ders += [rng.randbytes(n) for n in list(range(1, 8)) + [47, 48, 49, 95, 96, 97, 118, 121, 138, 191, 192, 193]]
+    ders += [rng.randbytes(rng.randrange(0, 400)) for _ in range(10 if quick else 150)]
+    to = [f"pem.to {h0(rng.choice(names))} {h0(d)}" for d in ders]
+    to += [f"pem.to {h0(n)} {h0(ders[i % len(ders)])}" for i, n in enumerate(names)]
+    enc = [f"b64.enc {h0(d)}" for d in ders]
+    ctx.correspond(to + enc, "pem-encode")
+    un = []
+    alphabet = b"ABCDEFGHIJKLMNOPQRSTUVWXYZabcdefghijklmnopqrstuvwxyz0123456789+/"
+    junk = [b"=", b"==", b"===", b"====", b" ", b"\n", b"\r\n", b"\t", b"-", b"_", b"\x00", b"\xff", b"-----", b"A", b"AB", b"ABC", b"\x0b", b"\x0c",
+            b"\n\n", b"-----X", b" -----X\n", b"\n ", b" \n"]
+    for d in (ders if not quick else rng.sample(ders, 30)):
+        from register_crypto_plugin.ecdsa import der as _d            # only to have text to edit; judged by model = code
+        b64 = base64.b64encode(d)
+        pem = (b"-----BEGIN %s-----\n" % rng.choice(names[:4]) + b"".join(b64[i:i + 64] + b"\n" for i in range(0, len(b64), 64))
+               + b"-----END X-----\n")
+        un.append(f"pem.un {h0(pem)}")
+        un.append(f"b64.dec {h0(b64)}")
+        for _ in range(14 if quick else 40):
+            kind = rng.randrange(8)
+            t = bytearray(rng.choice([pem, b64]))
+            if kind == 0 and t:
+                del t[rng.randrange(len(t)):]
+            elif kind == 1 and t:
+                del t[rng.randrange(len(t))]
+            elif kind == 2:
+                i = rng.randrange(len(t) + 1)
+                t[i:i] = rng.choice(junk)
+            elif kind == 3 and t:
+                t[rng.randrange(len(t))] = rng.choice([rng.randrange(256), 61, 10, 45, 32])
+            elif kind == 4:
+                t = bytearray(bytes(t).replace(b"\n", rng.choice([b"\r\n", b"\n\n", b" \n", b"\n ", b""])))
+            elif kind == 5:
+                t = bytearray(bytes(t).rstrip(b"=\n") + rng.choice(junk))
+            elif kind == 6:
+                t = bytearray(rng.choice(junk)) + t
+            else:
+                i = rng.randrange(len(t) + 1)
+                t[i:i] = bytes(rng.choice(alphabet) for _ in range(rng.randrange(1, 4)))
+            op = "pem.un" if (b"-----" in t or rng.random() < 0.3) else "b64.dec"
+            un.append(f"{op} {h0(bytes(t))}")
+    for _ in range(300 if quick else 3000):
+        n = rng.randrange(0, 12)
+        t = bytes(rng.choice(list(alphabet) * 3 + [61, 61, 61, 10, 32, 45, rng.randrange(256)]) for _ in range(n))
+        un.append(f"{rng.choice(['pem.un', 'b64.dec'])} {h0(t)}")
+    ctx.correspond(un, "pem-decode")
+
+
 def run(ctx):
     rng = ctx.rng
     quick = ctx.quick
@@ -259,6 +312,7 @@ def run(ctx):
     ctx.correspond(codec_lines(ctx, rng, 2 if quick else 12), "point-codecs")
     key_der_lines(ctx, rng, quick)
     curve_der_lines(ctx, rng, quick)
+    pem_lines(ctx, rng, quick)
     props = []
     import refec
     from c17 import refec_curve
